@@ -183,3 +183,17 @@ Definition names_ok_shipped_cs (lines : list string) (tt : list EngineSM.row) (s
                    in_grammar07 t && names_ok t e && hooks_free e && user_lines_plain e t
   | None => false
   end.
+
+(* any shipped file inside the grammar: the reference text for a table, an interface, the signature oracle and a user-tag assignment; its admission *)
+Definition shipped_ref (lines : list string) (tt : list EngineSM.row) (structs protos msgs : list string)
+                       (sigs : list (string * (string * string))) (a : list (string * string)) : option string :=
+  match shipped16 dict0 lines with
+  | Some (_, t) => Some (ref16 (with_user a (with_evsigs sigs (elements_of (table_of tt) structs protos msgs))) t)
+  | None => None
+  end.
+Definition shipped_wf (lines : list string) (tt : list EngineSM.row) (structs protos msgs : list string)
+                      (sigs : list (string * (string * string))) (a : list (string * string)) : bool :=
+  match shipped16 dict0 lines with
+  | Some (_, t) => wf_elements16 t (with_user a (with_evsigs sigs (elements_of (table_of tt) structs protos msgs)))
+  | None => false
+  end.
